@@ -1,4 +1,6 @@
 """C14 — writers never hide a sink failure; short writes (DESIGN.md §5 C14; A5a, A5b, A3)."""
+import re
+
 from .. import a5
 from .. import cfg as C
 from .. import rules as R
@@ -13,7 +15,8 @@ EXPLANATION = (
     "that rejects a 0-byte write; (R3) finish/try_finish/shutdown/Drop of every writer type pass the flush of staged "
     "data and the format terminator (BGZF EOF block, CRAM EOF container) and the thin format writers reach the inner "
     "finisher; (R4) multithreaded writer: a failed ticket send joins the writer thread and returns its error, and the "
-    "writer thread propagates compression and sink errors with `?`.")
+    "writer thread propagates compression and sink errors with `?`."
+    " (R5) the own-crate closure of every staging Write::write impl reaches the sink only through write_all: a raw sink flush()/write() whose Interrupted escapes write() after bytes were staged makes write_all duplicate them.")
 ASSUMPTIONS = [
     "std::io::Write::write_all / tokio write_all loop over short writes and retry Interrupted (library contract)",
     "errors can only be lost by discarding a Result value or by matching its Err arm into a success path; panics are C15",
@@ -282,3 +285,37 @@ def run(ctx):
         else:
             ctx.ok("C14.R4", th.key + " :: sink writes propagate with ?", "", th.loc())
         R.must_pass(ctx, "C14.R4", th.key, None, "writer thread appends BGZF_EOF before returning Ok", callpred=eof_call, fn=th)
+
+    # ---------------------------------------------------------------- R5 no raw sink flush/write inside a staging write()
+    ctx.rule("C14.R5", "A2 who-may-call: the closure of every staging `Write::write` impl reaches the sink only through write_all (which "
+                       "absorbs Interrupted): a raw sink flush()/write() whose Interrupted escapes write() after bytes were staged makes "
+                       "every caller's write_all retry and duplicate them")
+    ws = sorted(k for k in fb.fns if re.search(r"as std::io::Write>::write$", k) and k.startswith("<noodles_"))
+    cg = fb.callgraph()
+    nw = 0
+    for w in ws:
+        fw_ = fb.fns[w]
+        # delegating impls (return the sink's own count, stage nothing) are classified by R2
+        seen = set()
+        st = [w]
+        while st:
+            k = st.pop()
+            if k in seen or k not in fb.fns or fb.fns[k].crate != fw_.crate:
+                continue
+            seen.add(k)
+            st.extend(cg.get(k, ()))
+            st.extend(fb.children.get(k, ()))
+        stages = any(re.search(r"(Extend<[^>]*>>::extend|extend_from_slice|BytesMut::extend|put_slice)$", c.get("f") or "")
+                     for k in seen for b, c in fb.fns[k].calls())
+        if not stages:
+            continue
+        nw += 1
+        ctx.saw_fn(fw_)
+        hits = [(k, c.get("f"), b) for k in sorted(seen) for b, c in fb.fns[k].calls() if c.get("f") in ("std::io::Write::flush", "std::io::Write::write")]
+        if not hits:
+            ctx.ok("C14.R5", w + " :: sink reached only through write_all", "%d functions in the closure" % len(seen), fw_.loc())
+        for k, fk, b in hits:
+            ctx.violation("C14.R5", "C14.R5/raw-sink-call-in-write/%s/%s" % (fb.fns[k].root, fk.split("::")[-1]),
+                          "%s, reachable from %s after the bytes were staged, calls the sink's raw %s(): an Interrupted from it escapes write() and "
+                          "the caller's write_all() writes the same bytes again" % (fb.fns[k].root, w, fk.split("::")[-1]), fb.fns[k].loc(b))
+    ctx.floor("C14.R5", "staging Write::write impls", nw, 2)
